@@ -145,6 +145,20 @@ def mk_ops(rng, B, rem_bits, leafs, which=None):
             add('store_address(ext value out of range)', lambda b, v=v, ln=ln: b.store_address(ExternalAddress(v, ln)), None, valid=False)
     if 11 + 512 <= rem_bits:
         add('store_address(ext length out of range)', lambda b: b.store_address(ExternalAddress(1, 512)), None, valid=False)
+    # an internal address whose account id is not 256 bits (address:bits256) or whose anycast depth is outside 1..30 (depth:(#<= 30) {depth >= 1}) does not fit
+    # the stated width: with room for every wrong length, so that only the value is what is refused
+    if rem_bits >= 3 + 8 + 8 * 64:
+        from pytoniq_core.boc.address import Address
+        for nbytes in (0, 1, 31, 33, 40, 64):
+            add('store_address(account id not 256 bits)', lambda b, nbytes=nbytes: b.store_address(Address((0, bytes([7]) * nbytes))), None, valid=False)
+        add('store_address(account id not 256 bits, text)', lambda b: b.store_address('0:' + 'ab' * 31), None, valid=False)
+        add('Address.to_cell(account id not 256 bits)', lambda b: b.store_cell(Address((-1, bytes(33))).to_cell()), None, valid=False)
+        for depth in (0, 31):
+            def anyc(b, depth=depth):
+                a = Address((0, bytes(32)))
+                a.set_anycast(depth, 0)
+                return b.store_address(a)
+            add('store_address(anycast depth out of range)', anyc, None, valid=False)
     if rem_bits >= 140:
         add('store_coins(2^120)', lambda b: b.store_coins(1 << 120), None, valid=False)
         add('store_coins(negative)', lambda b: b.store_coins(-5), None, valid=False)
